@@ -47,6 +47,7 @@ func must[T any](v T, err error) T {
 type env struct {
 	ca    *fixture.CA
 	hooks *ss.Hooks
+	svc   *majordomo // a linked CA: the service holding the revoked tables (nil = stand-alone)
 }
 
 var envs []*env
@@ -153,6 +154,20 @@ func (e *env) issueSSH() *sshCert {
 	ctx := provisioner.NewContextWithMethod(authority.NewContext(context.Background(), e.ca.Auth), provisioner.SSHSignMethod)
 	opts := must(e.ca.Auth.Authorize(ctx, tok))
 	crt := must(e.ca.Auth.SignSSH(ctx, pub, provisioner.SignSSHOptions{CertType: "host", KeyID: name, Principals: []string{name}}, opts...))
+	return &sshCert{crt: crt, key: key}
+}
+
+// craftSSH: an SSH host certificate with a chosen serial, signed by the CA's SSH host key (the CA itself draws 64-bit random
+// serials, whose decimal form hardly ever is a valid octal number as well)
+func (e *env) craftSSH(serial uint64) *sshCert {
+	name := "h" + must(randutil.Hex(8)) + ".example.com"
+	key := must(ecdsa.GenerateKey(elliptic.P256(), rand.Reader))
+	now := time.Now()
+	crt := &ssh.Certificate{Key: must(ssh.NewPublicKey(&key.PublicKey)), Serial: serial, CertType: ssh.HostCert, KeyId: name, ValidPrincipals: []string{name},
+		ValidAfter: uint64(now.Add(-time.Minute).Unix()), ValidBefore: uint64(now.Add(time.Hour).Unix())}
+	if err := crt.SignCert(rand.Reader, must(ssh.NewSignerFromSigner(e.ca.SSHHost))); err != nil {
+		panic(err)
+	}
 	return &sshCert{crt: crt, key: key}
 }
 
@@ -328,6 +343,9 @@ func spellSSHSerial(n uint64, i int) string {
 
 // dumpTable renders a revoked table as [x<hex key>=<tag>,…] (tag = the number in the record's Reason "t<n>").
 func dumpTable(e *env, table string) string {
+	if e.svc != nil {
+		return e.svc.dump(table)
+	}
 	var parts []string
 	for _, en := range ss.Dump(e.ca.DB, table) {
 		var rec struct{ Reason string }
